@@ -27,7 +27,7 @@ COMPONENTS = {
     'stub': ['user objective', 'PRNG seam (reports the element random.choice picked)', 'joblib', 'time.time', 'uuid1'],
 }
 PROBES_EXPECTED = ['eq_calls', 'identical', 'all_differ', 'share_some_coordinates', 'share_last_coordinate_only_differ_elsewhere',
-                   'generate_calls', 'rejected_duplicates', 'removals_checked', 'identical_vectors_in_pool']
+                   'generate_calls', 'rejected_duplicates', 'removals_checked', 'identical_vectors_in_pool', 'derived_pairs']
 
 
 def hooks(ctx, w, D):
@@ -70,7 +70,54 @@ def hooks(ctx, w, D):
             ctx.probe('rejected_duplicates')
         return r
 
+    def derived(parents, key):
+        """== is pure: re-invoke it on pairs derived from run-produced designs - exactly one coordinate (first, middle, last)
+        moved by 1e-12, 1e-9, 1e-3 relative or by half the range - so that every coordinate position and every magnitude
+        class is judged, whatever SBX / PM happened to produce"""
+        eq_ = monitors.ORIG['eq']
+        for t in range(min(6, len(parents))):
+            src = parents[D.dec('work', ('de', key, t, 0), len(parents))]
+            n = len(src.vector)
+            if n == 0:
+                return
+            a = src.__class__(list(src.vector))
+            b = src.__class__(list(src.vector))
+            pos = (0, n // 2, n - 1)[D.dec('work', ('de', key, t, 1), 3)]
+            kind = D.dec('work', ('de', key, t, 2), 5)
+            x = float(b.vector[pos])
+            delta = (0.0, 2e-12, 1e-9 * max(1.0, abs(x)) * 0.5, 1e-3 * max(1.0, abs(x)), 0.37)[kind]
+            b.vector[pos] = x + delta
+            d = abs(float(a.vector[pos]) - float(b.vector[pos]))
+            if abs(d - 1e-10) < 1e-12:
+                continue
+            exp = d < 1e-10
+            ctx.probe('derived_pairs')
+            for p_, q_ in ((a, b), (b, a)):
+                got = bool(eq_(p_, q_))
+                if got != exp:
+                    ctx.violation('eq_ne_definition', 'Individual.__eq__', '%r == %r evaluated to %r; they differ by %r in coordinate %d '
+                                  '(pair derived from a run design)' % (list(p_.vector), list(q_.vector), got, d, pos))
+                    return
+            if list(a.vector) == list(b.vector) and hash(a) != hash(b):
+                ctx.violation('hash_differs', 'Individual.__hash__', 'identical vectors %r hash differently' % (list(a.vector),))
+                return
+            # a design that has been hashed and then moved must hash like its new vector
+            h0 = hash(b)
+            b.vector = list(a.vector)
+            if hash(b) != hash(a):
+                ctx.violation('hash_differs', 'Individual.__hash__', 'a design hashed at %r and then moved to %r does not hash like a fresh '
+                              'design there (%r vs %r): set() cannot de-duplicate them' % (x + delta, list(a.vector), hash(b), hash(a)))
+                return
+
     def generate(orig, self, parents, archive=None):
+        from artap.individual import Individual
+        st['gen'] = st.get('gen', 0) + 1
+        if st['gen'] <= 25 and parents and not ctx.violations:
+            saved = Individual.counter
+            try:
+                derived(list(parents), st['gen'])
+            finally:
+                Individual.counter = saved
         st['in_generate'] += 1
         ctx.probe('generate_calls')
         try:
